@@ -135,25 +135,37 @@ theorem truncateStart_width (dW eW : Nat) (data ell : List Char) (max : Nat)
     have e3 := e3 (Nat.zero_le _)
     have e4 := W_take_le cw ell.reverse (scanFit cw max ell.reverse 0).1
     rw [W_reverse] at e4
-    simp only [W_append, W_trimZero, W_takeEnd]
+    simp only [W_append, W_trimZero, W_takeEnd, W_keptStart]
     constructor <;> omega
-  · simp only [W_trimZero]; constructor <;> omega
+  · simp only; constructor <;> omega
 
-/-- `write_truncated_start` on text that fits: the text comes back *without its leading zero-width
-    characters* — not unchanged.  This is the code's behaviour (finding
-    `text:truncate-start-drops-leading-zero-width-chars-of-text-that-fits`), stated exactly. -/
-theorem truncateStart_fits_partial (dW eW : Nat) (data ell : List Char) (max : Nat) (h : dW ≤ max) :
-    writeTruncatedStart cw dW eW data ell max = (trimZero cw data, dW) := by
+/-- **fits_unchanged** for `write_truncated_start` (no width hypothesis needed: the decision is
+    taken with `dW`): text that fits comes back unchanged, leading zero-width characters included.
+    (Before /repo 645211a the code dropped them — former finding
+    `text:truncate-start-drops-leading-zero-width-chars-of-text-that-fits`; this theorem was then
+    only the weaker `truncateStart_fits_partial` with result `trimZero cw data`.) -/
+theorem truncateStart_fits (dW eW : Nat) (data ell : List Char) (max : Nat) (h : dW ≤ max) :
+    writeTruncatedStart cw dW eW data ell max = (data, dW) := by
   simp [writeTruncatedStart, Nat.not_lt.mpr h]
 
-/-- … so it is unchanged exactly when the text does not start with a zero-width character -/
-theorem truncateStart_fits_of_visible_start (dW eW : Nat) (c : Char) (cs ell : List Char) (max : Nat)
-    (h : dW ≤ max) (hc : cw c ≠ 0) :
-    writeTruncatedStart cw dW eW (c :: cs) ell max = (c :: cs, dW) := by
-  simp [truncateStart_fits_partial cw dW eW (c :: cs) ell max h, trimZero, hc]
+/-- … and even on the truncating path (`dW > max`, possible with `W data ≤ max - eW` only when the
+    string-level measure exceeds the per-character sum) nothing is dropped from a text whose
+    characters are all kept: zero-width characters are skipped only after a removed character. -/
+theorem truncateStart_keeps_all_of_fit (dW eW : Nat) (data ell : List Char) (max : Nat)
+    (h : W cw data ≤ max - eW) :
+    ∃ e, (writeTruncatedStart cw dW eW data ell max).1 = e ++ data := by
+  unfold writeTruncatedStart
+  split
+  · have := scanFit_all cw (max - eW) data.reverse (by rw [W_reverse]; exact h)
+    refine ⟨trimZero cw (takeEnd (scanFit cw max ell.reverse 0).1 ell), ?_⟩
+    simp [keptStart, this]
+  · exact ⟨[], rfl⟩
 
-/-- the finding is real in the model too: a combining mark in front of a letter, width 4 -/
-example : (writeTruncatedStart (fun c => if c = 'a' then 1 else 0) 1 0 ['\u0301', 'a'] [] 4).1 = ['a'] := by decide
+/-- the former reproducer of the finding, on the model: a combining mark in front of a letter,
+    width 4 — unchanged; and cut to width 0 budget the mark goes with its letter -/
+example : writeTruncatedStart (fun c => if c = 'a' then 1 else 0) 1 0 ['\u0301', 'a'] [] 4 = (['\u0301', 'a'], 1) := by decide
+example : writeTruncatedStart (fun c => if c = 'a' then 1 else 0) 2 0 ['a', '\u0301', 'a'] [] 1 = (['a'], 1) := by decide
+example : W (fun c => if c = 'a' then 1 else 0) ['\u0301', 'a'] ≤ 4 - 0 := by decide
 
 /-! ### write_padded_* -/
 
@@ -231,13 +243,11 @@ theorem char_boundaries_truncate (dW eW : Nat) (data ell : List Char) (max : Nat
   · unfold writeTruncatedStart
     split
     · obtain ⟨k, hk⟩ := trimZero_eq_drop cw (takeEnd (scanFit cw max ell.reverse 0).1 ell)
-      obtain ⟨j, hj⟩ := trimZero_eq_drop cw (takeEnd (scanFit cw (max - eW) data.reverse 0).1 data)
-      refine ⟨data.length - (scanFit cw (max - eW) data.reverse 0).1 + j,
-        ell.length - (scanFit cw max ell.reverse 0).1 + k, ?_⟩
+      obtain ⟨j, hj⟩ := keptStart_eq_drop cw (scanFit cw (max - eW) data.reverse 0).1 data
+      refine ⟨j, ell.length - (scanFit cw max ell.reverse 0).1 + k, ?_⟩
       simp only
-      rw [hk, hj, takeEnd_eq_drop, takeEnd_eq_drop, List.drop_drop, List.drop_drop]
-    · obtain ⟨j, hj⟩ := trimZero_eq_drop cw data
-      exact ⟨j, ell.length, by simp [hj]⟩
+      rw [hk, hj, takeEnd_eq_drop, List.drop_drop]
+    · exact ⟨0, ell.length, by simp⟩
 
 /-! ### wrap_bytes -/
 
